@@ -549,6 +549,9 @@ def solve_one(
                 # a domain heuristic adds at most two choice points, the shaving algorithm needs one more
                 raise ValueError("The choice points stack is full, stack_max_height should be increased")
             dom_idx = var_heuristic_fct(var_heuristic_params, decision_domains, shr_domains_stack, stacks_top)
+            if dom_idx < 0:
+                # all the decision domains are instantiated but some other domain is not: there is nothing to branch on
+                raise ValueError("The decision domains do not determine all the variables, they should be extended")
             events = dom_heuristic_fct(
                 dom_heuristic_params,
                 shr_domains_stack,
